@@ -206,7 +206,10 @@ def build():
                               "trace validation of executions driven by TLC-generated and seeded random cases; "
                               "trusted: " + base,
                 "technique": "explicit TLA+ specification model-checked with TLC + TLC trace validation of the "
-                             "real code's executions (spec->code case generation, code->spec trace checking)",
+                             "real code's executions (spec->code case generation, code->spec trace checking)"
+                             + ("; the thorough tier additionally checks an inductive invariant of the step-unbounded "
+                                "model with Apalache (spec/APA_*.tla, crv/apalache.py)"
+                                if p in ("C09", "C11", "C15", "C17") else ""),
             })
         else:
             na.append({"property_id": p, "reason": PENDING_REASON})
